@@ -599,3 +599,454 @@ theorem erase_toStmt (x y : Tree) (h : toStmt x = .ok y) : erase y = erase x := 
     rfl
 
 end MacroExpand
+
+namespace MacroExpand
+open Tree
+
+theorem erase_blockToExpr (c : Cat) (a : String) (s : Slot) (ks : List Tree) :
+    erase (blockToExpr (.list .blockStmt c a s ks) ks) = erase (.list .blockStmt c a s ks) := by
+  unfold blockToExpr
+  split
+  · simp [identNil, erase, eraseL, eraseNode, eraseList]
+  · simp [erase, eraseL, eraseNode, eraseList]
+  · simp [identNil, erase, eraseL, eraseNode, eraseList]
+  · exact erase_mkQuoteMacro _
+
+theorem erase_toExpr (x y : Tree) (h : toExpr x = .ok y) : erase y = erase x := by
+  unfold toExpr at h
+  obtain ⟨n, hn, h2⟩ := bind_ok h
+  have hnx := toNode_ok x n hn
+  subst hnx
+  clear h
+  split at h2 <;> simp at h2 <;> subst h2
+  · rfl
+  · rfl
+  · rfl
+  · exact erase_blockToExpr _ _ _ _
+  · simp [identNil, erase, eraseNode]
+  · simp [erase, eraseL, eraseNode]
+  · rw [erase_mkQuoteMacro]; simp [mkBlock, erase, eraseL, eraseList]
+  · rw [erase_mkQuoteMacro]; simp [mkBlock, erase, eraseL, eraseList]
+
+theorem erase_toBlock (x y : Tree) (h : toBlock x = .ok y) : erase y = erase x := by
+  unfold toBlock at h
+  split at h
+  · simp at h; subst h; rfl
+  · simp at h; subst h; rfl
+  · obtain ⟨s, hs, h2⟩ := bind_ok h
+    simp at h2; subst h2
+    have := erase_toStmt _ _ hs
+    simp [mkBlock, erase, eraseL, eraseList]
+    simpa [erase] using this
+
+theorem erase_exactKind (k : Kind) (x y : Tree) (h : exactKind k x = .ok y) : erase y = erase x := by
+  unfold exactKind at h
+  obtain ⟨n, hn, h2⟩ := bind_ok h
+  have hnx := toNode_ok x n hn
+  subst hnx
+  split at h2
+  · simp at h2; subst h2; cases n <;> simp [Tree.kind] at *
+  · split at h2 <;> simp at h2; subst h2; rfl
+
+theorem erase_exactCat (c : Cat) (x y : Tree) (h : exactCat c x = .ok y) : erase y = erase x := by
+  unfold exactCat at h
+  obtain ⟨n, hn, h2⟩ := bind_ok h
+  have hnx := toNode_ok x n hn
+  subst hnx
+  split at h2
+  · simp at h2; subst h2; cases n <;> simp [Tree.cat] at *
+  · split at h2 <;> simp at h2; subst h2; rfl
+
+theorem erase_toFieldList (x y : Tree) (h : toFieldList x = .ok y) : erase y = erase x := by
+  unfold toFieldList at h
+  obtain ⟨n, hn, h2⟩ := bind_ok h
+  have hnx := toNode_ok x n hn
+  subst hnx
+  split at h2 <;> simp at h2 <;> subst h2
+  · cases n <;> simp [Tree.kind] at *
+  · rfl
+  · simp [mkFieldList, erase, eraseL, eraseList]
+
+theorem erase_exactWrapper (k : Kind) (x y : Tree) (h : exactWrapper k x = .ok y) : erase y = erase x := by
+  unfold exactWrapper at h
+  split at h
+  · simp at h; subst h; rfl
+  · split at h <;> simp at h; subst h; rfl
+  · simp at h
+
+/-- converting a node for a (non-slice) slot only adds or removes erased wrappers -/
+theorem erase_convOne (s : Slot) (x y : Tree) (h : convOne s x = .ok y) : erase y = erase x := by
+  cases s <;> simp only [convOne] at h
+  · exact erase_toExpr _ _ h
+  · exact erase_toStmt _ _ h
+  · exact erase_toBlock _ _ h
+  · simp at h
+  · simp at h
+  · simp at h
+  · exact erase_exactKind _ _ _ h
+  · exact erase_exactCat _ _ _ h
+  · exact erase_exactCat _ _ _ h
+  · exact erase_exactKind _ _ _ h
+  · exact erase_toFieldList _ _ h
+  · exact erase_exactKind _ _ _ h
+  · exact erase_exactWrapper _ _ _ h
+  · exact erase_exactWrapper _ _ _ h
+  · rw [toNode_ok _ _ h]
+  · simp at h; subst h; rfl
+
+end MacroExpand
+
+namespace MacroExpand
+open Tree
+
+/-! ### well-slotted trees (what the parser and the ast2 constructors build) -/
+
+def isSliceSlot : Slot → Bool
+  | .exprs | .stmts | .idents => true
+  | _ => false
+
+/-- a slice-typed slot holds nil or the slice of its own type -/
+def slotOk : Slot → Tree → Bool
+  | .exprs, .nil => true
+  | .exprs, .list .exprSlice _ _ _ _ => true
+  | .exprs, _ => false
+  | .stmts, .nil => true
+  | .stmts, .list .stmtSlice _ _ _ _ => true
+  | .stmts, _ => false
+  | .idents, .nil => true
+  | .idents, .list .identSlice _ _ _ _ => true
+  | .idents, _ => false
+  | _, _ => true
+
+def slotsOk : List Slot → List Tree → Bool
+  | s :: ss, k :: ks => slotOk s k && slotsOk ss ks
+  | _, _ => true
+
+def kindOk (k : Kind) (ks : List Tree) : Bool :=
+  match k with
+  | .emptyStmt => ks.isEmpty
+  | .ident => ks.isEmpty
+  | .unaryExpr => ks.length == 1
+  | _ => true
+
+mutual
+def ws : Tree → Bool
+  | .nil => true
+  | .node k _ _ ss ks => ss.length == ks.length && slotsOk ss ks && kindOk k ks && wsL ks
+  | .list _ _ _ es ks => !isSliceSlot es && wsL ks
+def wsL : List Tree → Bool
+  | [] => true
+  | t :: ts => ws t && wsL ts
+end
+
+theorem wsL_mem : ∀ ks : List Tree, wsL ks = true → ∀ x ∈ ks, ws x = true := by
+  intro ks; induction ks with
+  | nil => intro _ x hx; cases hx
+  | cons y ys ih =>
+    intro h x hx
+    rw [wsL] at h; simp at h
+    cases hx with
+    | head => exact h.1
+    | tail _ hx => exact ih h.2 x hx
+
+theorem ws_unwrap (b : Bool) (t : Tree) (h : ws t = true) : ws (unwrap b t) = true := by
+  induction t using unwrap.induct b with
+  | case1 c a s x hb ih =>
+    rw [unwrap]; simp [hb]; apply ih
+    rw [ws] at h; simp at h
+    exact wsL_mem _ h.2 x (List.mem_cons_self ..)
+  | case2 c a s x hb => rw [unwrap]; simp [hb]; exact h
+  | case3 _ _ _ x ih =>
+    rw [unwrap]; apply ih; rw [ws] at h; simp at h
+    exact wsL_mem _ h.2 x (List.mem_cons_self ..)
+  | case4 _ _ _ x ih =>
+    rw [unwrap]; apply ih; rw [ws] at h; simp at h
+    exact wsL_mem _ h.2 x (List.mem_cons_self ..)
+  | case5 _ _ _ x ih =>
+    rw [unwrap]; apply ih; rw [ws] at h; simp at h
+    exact wsL_mem _ h.2 x (List.mem_cons_self ..)
+  | case6 t h1 h2 h3 h4 =>
+    have e : unwrap b t = t := by rw [unwrap] <;> assumption
+    rw [e]; exact h
+
+theorem unwrap_size0 (b : Bool) (t : Tree) (h : t.size = 0) : unwrap b t = t := by
+  cases t with
+  | nil => rw [unwrap] <;> simp
+  | node k c a ss ks =>
+    simp [Tree.size] at h; subst h
+    rw [unwrap] <;> simp
+  | list k c a es ks =>
+    simp [Tree.size] at h; subst h
+    rw [unwrap] <;> simp
+
+theorem codewalk_nil (tbl : Tbl) (f : Nat) (d : Int) (r : Tree × Bool)
+    (h : codewalk tbl f .nil d = .ok r) : r = (.nil, false) := by
+  cases f with
+  | zero => simp [codewalk] at h
+  | succ f => simp [codewalk, Tree.size] at h; exact h.symm
+
+/-- the statement proved for every child, used as induction hypothesis -/
+def WalkOk (w : Tree → R (Tree × Bool)) : Prop :=
+  (∀ r, w .nil = .ok r → r = (.nil, false)) ∧
+  ∀ t t' e, ws t = true → w t = .ok (t', e) →
+    e = false ∧ erase t' = erase t ∧
+    ∀ k c a es ks, unwrap true t = .list k c a es ks → ∃ ks', t' = .list k c a es ks'
+
+theorem conv_after_walk (w : Tree → R (Tree × Bool)) (hw : WalkOk w) (s : Slot) (k k' k'' : Tree) (e : Bool)
+    (hws : ws k = true) (hso : slotOk s k = true) (h1 : w k = .ok (k', e)) (h2 : conv s k' = .ok k'') :
+    e = false ∧ erase k'' = erase k := by
+  obtain ⟨he, her, hshape⟩ := hw.2 k k' e hws h1
+  refine ⟨he, ?_⟩
+  have scalar : ∀ s', conv s' k' = convOne s' k' → conv s' k' = .ok k'' → erase k'' = erase k := by
+    intro s' hc hk; rw [hc] at hk; rw [erase_convOne _ _ _ hk, her]
+  have slice : ∀ K es, (k = .nil ∨ ∃ c a e' ks, k = .list K c a e' ks) → K ≠ .blockStmt →
+      toSlice K es k' = .ok k'' → erase k'' = erase k := by
+    intro K es hk hK hts
+    rcases hk with rfl | ⟨c, a, e', ks, rfl⟩
+    · have := hw.1 _ h1
+      simp at this
+      obtain ⟨rfl, _⟩ := this
+      simp [toSlice] at hts; subst hts; rfl
+    · have hu : unwrap true (.list K c a e' ks) = .list K c a e' ks := by
+        rw [unwrap] <;> simp [hK]
+      obtain ⟨ks', rfl⟩ := hshape K c a e' ks hu
+      simp [toSlice] at hts; subst hts; exact her
+  cases s with
+  | exprs =>
+    simp only [conv] at h2
+    apply slice .exprSlice .expr _ (by simp) h2
+    cases k with
+    | nil => exact Or.inl rfl
+    | node => simp [slotOk] at hso
+    | list K c a e' ks =>
+      cases K <;> simp [slotOk] at hso
+      exact Or.inr ⟨c, a, e', ks, rfl⟩
+  | stmts =>
+    simp only [conv] at h2
+    apply slice .stmtSlice .stmt _ (by simp) h2
+    cases k with
+    | nil => exact Or.inl rfl
+    | node => simp [slotOk] at hso
+    | list K c a e' ks =>
+      cases K <;> simp [slotOk] at hso
+      exact Or.inr ⟨c, a, e', ks, rfl⟩
+  | idents =>
+    simp only [conv] at h2
+    apply slice .identSlice .ident _ (by simp) h2
+    cases k with
+    | nil => exact Or.inl rfl
+    | node => simp [slotOk] at hso
+    | list K c a e' ks =>
+      cases K <;> simp [slotOk] at hso
+      exact Or.inr ⟨c, a, e', ks, rfl⟩
+  | _ => exact scalar _ (by simp [conv]) h2
+
+theorem walkKids_macrofree (w : Tree → R (Tree × Bool)) (hw : WalkOk w) :
+    ∀ (ss : List Slot) (ks ks' : List Tree) (e : Bool), ss.length = ks.length → wsL ks = true → slotsOk ss ks = true →
+      walkKids w ss ks = .ok (ks', e) → e = false ∧ eraseL ks' = eraseL ks := by
+  intro ss
+  induction ss with
+  | nil =>
+    intro ks ks' e hl _ _ h
+    cases ks with
+    | nil => simp [walkKids] at h; obtain ⟨rfl, rfl⟩ := h; simp [eraseL]
+    | cons k ks => simp at hl
+  | cons s ss ih =>
+    intro ks ks' e hl hws hso h
+    cases ks with
+    | nil => simp at hl
+    | cons k ks =>
+      simp at hl
+      rw [wsL] at hws; simp at hws
+      rw [slotsOk] at hso; simp at hso
+      simp only [walkKids] at h
+      obtain ⟨p, hp, h⟩ := bind_ok h
+      obtain ⟨k', e1⟩ := p
+      obtain ⟨k'', hk'', h⟩ := bind_ok h
+      obtain ⟨q, hq, h⟩ := bind_ok h
+      obtain ⟨rest, e2⟩ := q
+      simp at h
+      obtain ⟨rfl, rfl⟩ := h
+      obtain ⟨he1, her⟩ := conv_after_walk w hw s k k' k'' e1 hws.1 hso.1 hp hk''
+      obtain ⟨he2, hrest⟩ := ih ks rest e2 hl hws.2 hso.2 hq
+      simp [he1, he2, eraseL, her, hrest]
+
+theorem walkElems_macrofree (w : Tree → R (Tree × Bool)) (hw : WalkOk w) (es : Slot) (hes : isSliceSlot es = false) :
+    ∀ (ks ks' : List Tree) (e : Bool), wsL ks = true →
+      walkElems w es ks = .ok (ks', e) → e = false ∧ eraseL ks' = eraseL ks := by
+  intro ks
+  induction ks with
+  | nil => intro ks' e _ h; simp [walkElems] at h; obtain ⟨rfl, rfl⟩ := h; simp [eraseL]
+  | cons k ks ih =>
+    intro ks' e hws h
+    rw [wsL] at hws; simp at hws
+    simp only [walkElems] at h
+    obtain ⟨p, hp, h⟩ := bind_ok h
+    obtain ⟨k', e1⟩ := p
+    obtain ⟨k'', hk'', h⟩ := bind_ok h
+    obtain ⟨q, hq, h⟩ := bind_ok h
+    obtain ⟨rest, e2⟩ := q
+    simp at h
+    obtain ⟨rfl, rfl⟩ := h
+    have hso : slotOk es k = true := by cases es <;> simp [isSliceSlot] at hes <;> simp [slotOk]
+    obtain ⟨he1, her⟩ := conv_after_walk w hw es k k' k'' e1 hws.1 hso hp hk''
+    obtain ⟨he2, hrest⟩ := ih rest e2 hws.2 hq
+    simp [he1, he2, eraseL, her, hrest]
+
+end MacroExpand
+
+namespace MacroExpand
+open Tree
+
+theorem kidsOf_erase_two (k0 : Tree) (x b : Tree) (r : List Tree) (hws : ws k0 = true)
+    (hk : kidsOf k0 = x :: b :: r) : ∃ x' r', kidsOf (erase k0) = x' :: erase b :: r' := by
+  cases k0 with
+  | nil => simp [kidsOf] at hk
+  | node k c a ss ks =>
+    simp [kidsOf] at hk; subst hk
+    rw [ws] at hws; simp at hws
+    have hko := hws.1.2
+    cases k <;> simp [kindOk] at hko <;>
+      exact ⟨erase x, eraseL r, by simp [erase, eraseL, eraseNode, kidsOf]⟩
+  | list k c a es ks =>
+    simp [kidsOf] at hk; subst hk
+    cases k <;> exact ⟨erase x, eraseL r, by simp [erase, eraseL, eraseList, kidsOf]⟩
+
+theorem bodyOf_single (k : Kind) (c : Cat) (a : String) (ss : List Slot) (k0 body : Tree)
+    (h : bodyOf (.node k c a ss [k0]) = .ok body) : ∃ x r, kidsOf k0 = x :: body :: r := by
+  cases k0 with
+  | nil => simp [bodyOf, kidsOf] at h
+  | node k1 c1 a1 s1 ks1 =>
+    cases ks1 with
+    | nil => simp [bodyOf, kidsOf] at h
+    | cons x r =>
+      cases r with
+      | nil => simp [bodyOf, kidsOf] at h
+      | cons b r2 => simp [bodyOf, kidsOf] at h; subst h; exact ⟨x, r2, rfl⟩
+  | list k1 c1 a1 s1 ks1 =>
+    cases ks1 with
+    | nil => simp [bodyOf, kidsOf] at h
+    | cons x r =>
+      cases r with
+      | nil => simp [bodyOf, kidsOf] at h
+      | cons b r2 => simp [bodyOf, kidsOf] at h; subst h; exact ⟨x, r2, rfl⟩
+
+/-- macro-free code: nothing is reported as expanded, the result is the input up to erased wrappers,
+    and a list comes out as a list of the same kind -/
+theorem codewalk_macrofree : ∀ (f : Nat) (d : Int), WalkOk (fun t => codewalk noMac f t d) := by
+  intro f
+  induction f with
+  | zero => intro d; exact ⟨fun r h => by simp [codewalk] at h, fun t t' e _ h => by simp [codewalk] at h⟩
+  | succ f ih =>
+    intro d
+    refine ⟨fun r h => codewalk_nil _ _ _ _ h, ?_⟩
+    intro t t' e hws h
+    simp only [] at h
+    rw [codewalk] at h
+    by_cases hs : t.size = 0
+    · simp [hs] at h
+      obtain ⟨rfl, rfl⟩ := h
+      refine ⟨rfl, rfl, ?_⟩
+      intro k c a es ks hu
+      rw [unwrap_size0 true t hs] at hu
+      exact ⟨ks, hu⟩
+    · simp only [hs, if_false] at h
+      obtain ⟨p, hp, h⟩ := bind_ok h
+      obtain ⟨t1, e1⟩ := p
+      have h1 : e1 = false ∧ unwrap true t1 = unwrap true t := by
+        by_cases hd : d ≤ 0
+        · simp only [hd, if_true] at hp
+          exact macroExpandLoop_noMac f t t1 false e1 hp
+        · simp only [hd, if_false] at hp
+          simp at hp; obtain ⟨rfl, rfl⟩ := hp; exact ⟨rfl, rfl⟩
+      obtain ⟨rfl, hu1⟩ := h1
+      simp only [] at h
+      rw [hu1] at h
+      have hwu := ws_unwrap true t hws
+      have heu := erase_unwrap true t
+      generalize unwrap true t = u at h hwu heu
+      cases u with
+      | nil =>
+        simp at h; obtain ⟨rfl, rfl⟩ := h
+        exact ⟨rfl, heu, fun k c a es ks hu => by cases hu⟩
+      | list k c a es ks =>
+        simp only [] at h
+        obtain ⟨q, hq, h⟩ := bind_ok h
+        obtain ⟨ks', e2⟩ := q
+        simp at h; obtain ⟨rfl, rfl⟩ := h
+        rw [ws] at hwu; simp at hwu
+        obtain ⟨he2, hks⟩ := walkElems_macrofree _ (ih d) es hwu.1 ks ks' e2 hwu.2 hq
+        refine ⟨by simp [he2], ?_, ?_⟩
+        · rw [← heu]; simp [erase, hks]
+        · intro k1 c1 a1 es1 ks1 hu
+          injection hu with h1 h2 h3 h4 h5
+          subst h1; subst h2; subst h3; subst h4
+          exact ⟨ks', rfl⟩
+      | node k c a ss ks =>
+        simp only [] at h
+        rw [ws] at hwu; simp at hwu
+        obtain ⟨⟨⟨hlen, hso⟩, hko⟩, hwk⟩ := hwu
+        cases hq : quoteOp (.node k c a ss ks) with
+        | none =>
+          rw [hq] at h
+          simp only [] at h
+          obtain ⟨q, hq2, h⟩ := bind_ok h
+          obtain ⟨ks', e2⟩ := q
+          simp at h; obtain ⟨rfl, rfl⟩ := h
+          obtain ⟨he2, hks⟩ := walkKids_macrofree _ (ih d) ss ks ks' e2 hlen hwk hso hq2
+          refine ⟨by simp [he2], ?_, fun k1 c1 a1 es1 ks1 hu => by cases hu⟩
+          rw [← heu]; simp [erase, hks]
+        | some op =>
+          rw [hq] at h
+          simp only [] at h
+          have hkq : k = .unaryExpr ∧ op = a := by
+            simp [quoteOp] at hq
+            split at hq
+            · rename_i heq
+              injection heq with h1 h2 h3 h4 h5
+              subst h1; subst h3
+              split at hq
+              · simp at hq; exact ⟨rfl, hq.symm⟩
+              · simp at hq
+            · simp at hq
+          obtain ⟨rfl, rfl⟩ := hkq
+          by_cases hq0 : op = opQuote ∧ d = 0
+          · obtain ⟨rfl, rfl⟩ := hq0
+            simp at h
+            obtain ⟨rfl, rfl⟩ := h
+            exact ⟨rfl, heu, fun k1 c1 a1 es1 ks1 hu => by cases hu⟩
+          · simp only [hq0, if_false] at h
+            obtain ⟨body, hb, h⟩ := bind_ok h
+            obtain ⟨q, hq2, h⟩ := bind_ok h
+            obtain ⟨oc, e2⟩ := q
+            -- the operand of the operator form
+            simp [kindOk] at hko
+            obtain ⟨k0, rfl⟩ := List.length_eq_one_iff.mp hko
+            have hwk0 := wsL_mem _ hwk k0 (List.mem_cons_self ..)
+            obtain ⟨x1, r2, hkk⟩ := bodyOf_single _ _ _ _ _ _ hb
+            have hwb : ws body = true := by
+              cases k0 with
+              | nil => simp [kidsOf] at hkk
+              | node k1 c1 a1 s1 ks1 =>
+                simp [kidsOf] at hkk; subst hkk
+                rw [ws] at hwk0; simp at hwk0
+                exact wsL_mem _ hwk0.2 body (by simp)
+              | list k1 c1 a1 s1 ks1 =>
+                simp [kidsOf] at hkk; subst hkk
+                rw [ws] at hwk0; simp at hwk0
+                exact wsL_mem _ hwk0.2 body (by simp)
+            obtain ⟨he2, hoc, _⟩ := (ih (depthAfter op d)).2 body oc e2 hwb hq2
+            subst he2
+            by_cases hm : op = opMacro
+            · simp [hm] at h
+              obtain ⟨rfl, rfl⟩ := h
+              refine ⟨rfl, ?_, fun k1 c1 a1 es1 ks1 hu => by cases hu⟩
+              rw [hoc, ← heu]
+              obtain ⟨x', r', hke⟩ := kidsOf_erase_two k0 x1 body r2 hwk0 hkk
+              subst hm
+              simp [erase, eraseL, eraseNode, hke]
+            · simp [hm] at h
+              obtain ⟨rfl, rfl⟩ := h
+              exact ⟨rfl, heu, fun k1 c1 a1 es1 ks1 hu => by cases hu⟩
+
+end MacroExpand
